@@ -21,7 +21,7 @@ TRUSTED_BASE = [
 LEVEL = {}
 ASSUMPTIONS = {}
 EXPLANATION = {}
-NEEDS_RELEASE = set()
+NEEDS_RELEASE = {'C01', 'C04', 'C08', 'C09'}      # thorough tier: every 5th case of these also runs on a release build of the runner
 SCENARIOS = {}
 
 
@@ -455,7 +455,7 @@ def scen_C01(ctx):
         lines = ['db d0 db', 'map m0 d0 %s m %s' % (kt, g.params())]
         lines += g.hist(kt, nops, universe=g.rng.choice([3, 8, 20, 60]), big=big)
         lines.append('closeall')
-        pair(ctx, 'hist', i, lines, stats=g.stats)
+        pair(ctx, 'hist', i, lines, stats=g.stats, release=(not ctx.quick and i % 5 == 0))
     parallel(one, range(n_hist))
     parallel(lambda i: cascade_case(ctx, 'C01', i), range(ctx.scale(12, 60)))
     parallel(lambda i: huge_case(ctx, 'C01', i, reopen=False), range(ctx.scale(1, 4)), workers=4)
@@ -590,7 +590,7 @@ def scen_C09(ctx):
             k = 'z%dx%d' % (L, L % 200) if L > 0 else '-'
             lines += ['put m0 %s 01' % k, 'get m0 %s' % k, 'put m0 %s z300x3' % k, 'get m0 %s' % k]
         lines += ['iter m0 keys', 'closeall', 'snap db']
-        pair(ctx, 'keylen', i, lines, files_oracle=True)
+        pair(ctx, 'keylen', i, lines, files_oracle=True, release=(not ctx.quick and i % 5 == 0))
     parallel(onek, list(enumerate([klens[i:i + 10] for i in range(0, len(klens), 10)])))
     # "writing one entry never alters the bytes of another" also while records MOVE: chains of slot-exact key records with
     # occupied neighbours, relocated when an offset field grows past 16 KiB; a 2 MiB value (4-byte length field)
@@ -754,7 +754,7 @@ def scen_C04(ctx):
         for k in ks:
             lines.append('del m0 %s' % G.hx(k))
         lines += ['iter m0 iter', 'closeall']
-        pair(ctx, 'hist', i, lines, stats=g.stats)
+        pair(ctx, 'hist', i, lines, stats=g.stats, release=(not ctx.quick and i % 5 == 0))
     parallel(hist, range(ctx.scale(80, 600)))
 
 
@@ -1254,7 +1254,7 @@ def scen_C08(ctx):
             lines.append('del m0 %s' % ('f%02d' % j).encode().hex())
         lines += g.hist('bytes', ctx.scale(150, 600), keys=ks, big=0.0, reads=0.25)
         lines += ['iter m0 iter', 'stats m0', 'closeall', 'snap db']
-        pair(ctx, 'collide', i, lines, stats=g.stats, files_oracle=True)
+        pair(ctx, 'collide', i, lines, stats=g.stats, files_oracle=True, release=(not ctx.quick and i % 5 == 0))
     parallel(collide_hist, range(ctx.scale(60, 500)))
     parallel(lambda i: cascade_case(ctx, 'C08', i), range(ctx.scale(24, 120)))
     # however large the offsets involved: a value beyond 2 MiB (4-byte varint fields), overwritten and followed by chained entries
